@@ -11,7 +11,7 @@ ID = "C07"
 LEVEL = "exploration"
 RULE = (
     "Hypothesis-generated (q, q_A) with q>=0, q_A>0 and all normal-cdf arguments <=37 in modulus "
-    "(uniform / log-uniform bulk, q=0, tiny q_A, q=q_A and its 4 float neighbours on each side, the "
+    "(uniform / log-uniform bulk, q=0, q_A down to 1e-24, q=q_A and its 4 float neighbours on each side, the "
     "qtilde q>q_A region) x test statistic {q, qtilde, q0} x base distribution {normal, clipped_normal} x "
     "backend. (q, q_A) are injected by patching get_test_stat / generate_asimov_data at test time; the "
     "real teststatistic -> distributions -> pvalues -> expected_pvalues code runs. Oracle: 50-digit "
@@ -50,7 +50,8 @@ def ulps(x, k):
 
 @st.composite
 def strategy_(draw, shard):
-    qA = draw(st.one_of(logu(1e-6, 1200.0), st.floats(0.01, 40.0), st.sampled_from([1.0, 4.0, 1e-8, 0.25, 1156.0])))
+    qA = draw(st.one_of(logu(1e-6, 1200.0), st.floats(0.01, 40.0), logu(1e-24, 1e-6),
+                        st.sampled_from([1.0, 4.0, 1e-8, 0.25, 1156.0, 1e-10, 1e-12, 1e-16, 1e-20])))
     kind = draw(st.integers(0, 9))
     if kind == 0:
         q = 0.0
